@@ -101,21 +101,44 @@ func runItems(ld *loaded, items []item, seed int, payloadCap int) []itemResult {
 		wg.Add(1)
 		go func() {
 			defer wg.Done()
-			e, err := vexec.New(ld.prog, ld.pkg, "z3-new", 60000)
-			if err != nil {
+			var e *vexec.Exec
+			initErr := ""
+			served := 0
+			// the term table of an executor only grows: a worker that serves thousands of configurations starts over
+			// with a new executor (and solver process) every 40 of them
+			renew := func() error {
+				if e != nil {
+					e.Close()
+				}
+				var err error
+				e, err = vexec.New(ld.prog, ld.pkg, "z3-new", 60000)
+				if err != nil {
+					return err
+				}
+				e.Seed = seed
+				e.Budget = time.Duration(envInt("VERIF_ITEM_BUDGET_S", itemBudget)) * time.Second
+				initErr = ""
+				if err := e.InitState(); err != nil {
+					initErr = err.Error()
+				}
+				served = 0
+				return nil
+			}
+			if err := renew(); err != nil {
 				for i := range ch {
 					results[i] = itemResult{It: items[i], InitErr: err.Error()}
 				}
 				return
 			}
-			defer e.Close()
-			e.Seed = seed
-			e.Budget = time.Duration(envInt("VERIF_ITEM_BUDGET_S", itemBudget)) * time.Second
-			initErr := ""
-			if err := e.InitState(); err != nil {
-				initErr = err.Error()
-			}
+			defer func() { e.Close() }()
 			for i := range ch {
+				if served >= 40 {
+					if err := renew(); err != nil {
+						results[i] = itemResult{It: items[i], InitErr: err.Error()}
+						continue
+					}
+				}
+				served++
 				it := items[i]
 				fn := ld.pkg.Func(it.Harness)
 				if fn == nil {
@@ -133,6 +156,15 @@ func runItems(ld *loaded, items []item, seed int, payloadCap int) []itemResult {
 				results[i] = itemResult{It: it, Res: res, Queries: after.Queries - before.Queries, Sat: after.Sat - before.Sat,
 					Unsat: after.Unsat - before.Unsat, Unknown: after.Unknown - before.Unknown, Solve: after.SolveTime - before.SolveTime,
 					Wall: time.Since(t0), Errors: after.Errors[len(before.Errors):], InitErr: initErr}
+				if len(items) > 400 && res != nil {
+					// many configurations: keep the evidence small (two witnesses and one script of each)
+					if len(res.Samples) > 2 {
+						res.Samples = res.Samples[:2]
+					}
+					if len(res.Scripts) > 1 {
+						res.Scripts = res.Scripts[:1]
+					}
+				}
 			}
 		}()
 	}
